@@ -29,8 +29,23 @@ func (c *GoCase) build() (reflect.Type, reflect.Value, error) {
 	return t, rv, err
 }
 
+// foldOpts returns ONE option value for the whole process (as an application
+// keeps it in a package variable); see gomodel.UnfoldOptions.
 func foldOpts() []gotype.FoldOption {
-	return []gotype.FoldOption{gotype.Folders(gomodel.FoldRegT)}
+	return []gotype.FoldOption{sharedFoldOpt}
+}
+
+var sharedFoldOpt = gotype.Folders(gomodel.FoldRegT)
+
+// withSharedOpts decides (from the type alone) whether an instance for a type
+// that does not need the shared option values gets them anyway: half of the
+// types that use one of the "hostile" named types do, so that an option value
+// polluted by another constructor call would show.
+func withSharedOpts(t reflect.Type) bool {
+	if t.Kind() == reflect.Ptr {
+		t = t.Elem()
+	}
+	return usesHostile(t) && len(t.String())%2 == 0
 }
 
 // foldTo folds the value held in rv (addressable) into vis, passing it the way
@@ -41,7 +56,7 @@ func foldTo(rv reflect.Value, vis structform.Visitor) Outcome {
 		// the registered folder is only passed when the type needs it: most
 		// users call Fold without options, and an iterator with options may take
 		// other code paths than one without
-		if !usesRegT(rv.Type(), 0, map[reflect.Type]bool{}) {
+		if !usesRegT(rv.Type(), 0, map[reflect.Type]bool{}) && !withSharedOpts(rv.Type()) {
 			return gotype.Fold(rv.Interface(), vis)
 		}
 		it, err := gotype.NewIterator(vis, foldOpts()...)
@@ -66,10 +81,13 @@ func otherInstances(t reflect.Type) {
 		return
 	}
 	guard(func() error {
-		if it, err := gotype.NewIterator(discardVisitor{}, hostileFoldOpts); err == nil {
+		// the shared option values come first, the other instance's own second:
+		// option values are immutable by contract, listing one next to another
+		// must not change it
+		if it, err := gotype.NewIterator(discardVisitor{}, sharedFoldOpt, hostileFoldOpts); err == nil {
 			_ = it.Fold(reflect.New(t).Elem().Interface())
 		}
-		if u, err := gotype.NewUnfolder(nil, hostileUnfoldOpts); err == nil {
+		if u, err := gotype.NewUnfolder(nil, gomodel.UnfoldOptions(), hostileUnfoldOpts); err == nil {
 			_ = u.SetTarget(reflect.New(t).Interface())
 		}
 		return nil
@@ -292,11 +310,11 @@ var _ = model.Null
 func newUnfolder(target any, types ...reflect.Type) (*gotype.Unfolder, error) {
 	need := false
 	if target != nil {
-		need = gomodel.UsesUserUnfolder(reflect.TypeOf(target))
+		need = gomodel.UsesUserUnfolder(reflect.TypeOf(target)) || withSharedOpts(reflect.TypeOf(target))
 		otherInstances(reflect.TypeOf(target))
 	}
 	for _, t := range types {
-		need = need || gomodel.UsesUserUnfolder(t)
+		need = need || gomodel.UsesUserUnfolder(t) || withSharedOpts(t)
 		otherInstances(t)
 	}
 	if need {
